@@ -514,6 +514,19 @@ def run_order(case: dict) -> CaseResult:
     return res
 
 
+def run_camera(case: dict) -> CaseResult:
+    """CameraImageResponse is the one wire message converted by reassembly instead of from_pb: the value handed to
+    the application must still preserve the field values -- key, and data = the concatenation of that key's chunks.
+    The session machinery and the reference reassembly are C17's (vf.props.c17); here the conversion result is judged."""
+    from vf.props import c17
+
+    r = c17.run_case({"noise": bool(case.get("noise")), "steps": case["steps"]})
+    out = CaseResult(nontrivial=True, classes=["camera_conversion"] + [c for c in r.classes if c.startswith("camera")], info=r.info)
+    for v in r.violations:
+        out.violations.append(Violation(ID, "c14:camera:" + v.signature.split(":", 1)[-1], v.detail))
+    return out
+
+
 def run_case(case: dict) -> CaseResult:
     k = case["kind"]
     if k == "order":
@@ -526,6 +539,8 @@ def run_case(case: dict) -> CaseResult:
         return run_convert(case)
     if k == "adv":
         return run_adv(case)
+    if k == "camera":
+        return run_camera(case)
     return run_floats(case)
 
 
@@ -599,10 +614,16 @@ def strategy(tier):
                      st.lists(_float_bits(), min_size=8, max_size=64).map(lambda b: {"kind": "floats", "bits": b}))
     # rarely (each costs a fresh interpreter): conversions must not depend on which model classes were used first
     order = st.lists(st.sampled_from(model_class_names()), min_size=1, max_size=6, unique=True).map(lambda f: {"kind": "order", "first": f})
+    from vf.props import c17
+
     @st.composite
     def mix(draw):
-        if draw(st.integers(0, 299)) == 137:  # (mid-range value: Hypothesis over-samples the bounds)
+        r = draw(st.integers(0, 299))
+        if r == 137:  # (mid-range value: Hypothesis over-samples the bounds)
             return draw(order)
+        if 140 <= r < 150:
+            c = draw(c17._camera_case(tier))
+            return {"kind": "camera", "noise": c["noise"], "steps": c["steps"]}
         return draw(conv)
 
     return mix()
@@ -610,6 +631,12 @@ def strategy(tier):
 
 def enumerated(tier):
     T = tables()
+    cam = lambda k, d, done: {"t": "camera", "key": k, "data": d, "done": done}  # noqa: E731
+    for inter in ([cam(1, "aa", False), cam(2, "b1", False), cam(1, "bb", False), cam(2, "b2", False), cam(1, "cc", True), cam(2, "b3", True)],
+                  [cam(1, "aa", False), cam(2, "b1b2", True), cam(1, "bb", True)],
+                  [cam(3, "", False), cam(1, "a1", False), cam(3, "c1", True), cam(2, "", True), cam(1, "a2", True)]):
+        for n in (1, 2, 6):
+            yield {"kind": "camera", "noise": n == 2, "steps": [{"op": "sub", "id": "s0", "kind": "states"}] + [{"op": "chunk", "msgs": inter[i:i + n]} for i in range(0, len(inter), n)]}
     for n in sorted(T["model_enums"]):
         yield {"kind": "schema", "what": "enum", "name": n}
     for m in sorted(T["pairs"]):
